@@ -17,6 +17,8 @@ type leafView struct {
 	okey func(p unsafe.Pointer) []byte // original key bytes as stored
 	val  func(p unsafe.Pointer) uint64
 	size uintptr
+	// set by the walker when it meets a node256 whose recorded fan-out cannot equal its 256 children
+	full256 bool
 }
 
 func lvAlpha() *leafView {
@@ -147,7 +149,8 @@ func childrenOf(ref nodeRef) ([]wfChild, bool) {
 				out = append(out, wfChild{byte(b), n256.children[b]})
 			}
 		}
-		ok = vpAnd(ok, cnt == int(n256.childrenLen))
+		// the counter is a uint8: a node with all 256 children records 0 (judged separately, known class K2)
+		ok = vpAnd(ok, uint8(cnt) == n256.childrenLen)
 		ok = vpAnd(ok, cnt >= 38 && cnt <= 256)
 	default:
 		ok = false
@@ -174,6 +177,9 @@ func wfWalk(lv *leafView, ref nodeRef, depth int, leaves *[][]byte) bool {
 	kids, ok := childrenOf(ref)
 	if len(kids) < 2 {
 		ok = false
+	}
+	if ref.tag == nodeKind256 && len(kids) == 256 {
+		lv.full256 = true
 	}
 	start := len(*leaves)
 	for _, c := range kids {
@@ -210,6 +216,24 @@ func wfWalk(lv *leafView, ref nodeRef, depth int, leaves *[][]byte) bool {
 		ok = vpAnd(ok, vpEqBytes(nd.prefix[:in], first[depth:depth+in]))
 	}
 	return ok
+}
+
+// wfLeaves lists the leaves reachable through the registered children (bounded depth: a cyclic index is C11's own failure).
+func wfLeaves(ref nodeRef, out *[]unsafe.Pointer, depth int) {
+	if ref.pointer == nil || depth > 64 {
+		return
+	}
+	if ref.tag == nodeKindLeaf {
+		*out = append(*out, ref.pointer)
+		return
+	}
+	if ref.tag > nodeKindLeaf {
+		return
+	}
+	kids, _ := childrenOf(ref)
+	for _, c := range kids {
+		wfLeaves(c.ref, out, depth+1)
+	}
 }
 
 // wellFormed: the index under root is the compressed radix tree of its leaves and holds size leaves.
